@@ -3,7 +3,8 @@
 (* one TLC state per transition <<world, value before, action, outcome>>.  The harness rebuilds the value before     *)
 (* from its public fields in a materialised copy of the world, calls the real option function and compares.          *)
 EXTENDS CliOptions
-CONSTANTS MaxSteps, Level     \* 0: one factor of the world at a time;  1: plus the pairs that interact;  2: the full product
+CONSTANTS MaxSteps, Profiles,   \* Profiles: BOOLEAN - whether the profile options are among the actions
+          Level     \* 0: one factor of the world at a time;  1: plus the pairs that interact;  2: the full product
 
 VARIABLES tr, steps
 vars == <<w, o, tr, steps>>
@@ -27,13 +28,14 @@ CFs == {[f |-> Unset, s |-> Unset],
         [f |-> V(""), s |-> Unset]}                                 \* names the working directory
 CPNs == {Unset, V("from-os"), V("From.OS"), V("")}
 VVs == {Unset, V("os"), V("")}
+CProfs == IF Profiles THEN {Unset, V("dbg"), V(" x , dbg "), V("")} ELSE {Unset}
 ConfigSets == {<<>>, <<P(4, "x.yaml")>>, <<P(3, "x.yaml"), P(4, "x.yaml")>>, <<P(3, "missing.yaml")>>}
 DE2 == {"none", "vv", "name"}
-DE3 == {"none", "vv", "file", "name"}
+DE3 == {"none", "vv", "file", "name"} \cup (IF Profiles THEN {"prof"} ELSE {})
 
-Dim == [l1 : {"L0", "L1"}, l2 : LNames, l3 : LNames, l4 : {"L0", "L1"}, de2 : DE2, de3 : DE3, cf : CFs, cpn : CPNs, vv : VVs, cfg : ConfigSets]
-Default == [l1 |-> "L0", l2 |-> "L3", l3 |-> "L0", l4 |-> "L0", de2 |-> "vv", de3 |-> "none", cf |-> [f |-> Unset, s |-> Unset], cpn |-> Unset, vv |-> Unset, cfg |-> <<>>]
-Fields == {"l1", "l2", "l3", "l4", "de2", "de3", "cf", "cpn", "vv", "cfg"}
+Dim == [l1 : {"L0", "L1"}, l2 : LNames, l3 : LNames, l4 : {"L0", "L1"}, de2 : DE2, de3 : DE3, cf : CFs, cpn : CPNs, vv : VVs, cprof : CProfs, cfg : ConfigSets]
+Default == [l1 |-> "L0", l2 |-> "L3", l3 |-> "L0", l4 |-> "L0", de2 |-> "vv", de3 |-> "none", cf |-> [f |-> Unset, s |-> Unset], cpn |-> Unset, vv |-> Unset, cprof |-> Unset, cfg |-> <<>>]
+Fields == {"l1", "l2", "l3", "l4", "de2", "de3", "cf", "cpn", "vv", "cprof", "cfg"}
 Diff(a, b) == {k \in Fields : a[k] # b[k]}
 \* pairs of world dimensions that interact in the code
 Interact == {{"l2", "l3"}, {"l3", "de3"}, {"de3", "cf"}, {"cf", "cfg"}, {"cf", "l2"}, {"de3", "cpn"}, {"de2", "de3"}, {"de3", "vv"}, {"l1", "l2"}, {"l3", "cfg"}, {"l4", "cfg"}}
@@ -43,8 +45,9 @@ Chosen(d) == CASE Level = 0 -> Cardinality(Diff(d, Default)) <= 1
 
 OsOf(d) == LET a == IF d.cf.f.set THEN [k \in {"COMPOSE_FILE"} |-> d.cf.f.v] ELSE [k \in {} |-> ""]
                b == IF d.cf.s.set THEN Over(a, [k \in {"COMPOSE_PATH_SEPARATOR"} |-> d.cf.s.v]) ELSE a
-               c == IF d.cpn.set THEN Over(b, [k \in {"COMPOSE_PROJECT_NAME"} |-> d.cpn.v]) ELSE b IN
-           IF d.vv.set THEN Over(c, [k \in {"VV"} |-> d.vv.v]) ELSE c
+               c == IF d.cpn.set THEN Over(b, [k \in {"COMPOSE_PROJECT_NAME"} |-> d.cpn.v]) ELSE b
+               e == IF d.vv.set THEN Over(c, [k \in {"VV"} |-> d.vv.v]) ELSE c IN
+           IF d.cprof.set THEN Over(e, [k \in {"COMPOSE_PROFILES"} |-> d.cprof.v]) ELSE e
 World(d) ==
   LET de == <<"none", d.de2, d.de3, "vv">>
       lay == <<Layouts[d.l1], Layouts[d.l2], Layouts[d.l3], Layouts[d.l4]>> IN
@@ -58,8 +61,11 @@ Names == {"explicit-1", "Bad.Name", ""}
 ExplicitEnvs == {[k \in {"VV"} |-> "ex"], [k \in {"COMPOSE_FILE"} |-> "../compose.yaml"], [k \in {"VV", "COMPOSE_PROJECT_NAME"} |-> IF k = "VV" THEN "" ELSE "from-explicit-env"]}
 ExplicitEnvFiles == {<<P(4, ".env")>>, <<P(2, ".env"), P(4, ".env")>>, <<P(4, ".env"), P(3, ".env")>>}
 
+\* the profiles an options value holds are not among its public fields: a transition of a profile option carries the outcome of
+\* loading its result (probe), which is how the harness observes it
 Step(label, arg, res) ==
-  /\ tr' = [act |-> label, arg |-> arg, from |-> o, to |-> res]
+  /\ tr' = [act |-> label, arg |-> arg, from |-> o, to |-> res,
+            probe |-> IF label \in {"profiles", "default-profiles"} /\ ~IsErr(res) THEN Loaded(res) ELSE [none |-> TRUE]]
   /\ o' = IF IsErr(res) \/ label \in {"load", "load-model"} THEN [done |-> TRUE] ELSE res
   /\ UNCHANGED w /\ steps' = steps + 1
 Live == "done" \notin DOMAIN o
@@ -74,6 +80,8 @@ Next ==
      \/ Step("env-files-default", 0, WithEnvFilesDefault(o))
      \/ \E fs \in ExplicitEnvFiles : Step("env-files", fs, WithEnvFiles(o, fs))
      \/ Step("dot-env", 0, WithDotEnv(o))
+     \/ Profiles /\ \E ps \in {<<"x">>, <<"dbg", "x">>} : Step("profiles", ps, WithProfiles(o, ps))
+     \/ Profiles /\ \E ps \in {<<>>, <<"*">>} : Step("default-profiles", ps, WithDefaultProfiles(o, ps))
      \/ Step("load", 0, Loaded(o))
      \/ Step("load-model", 0, LoadedModel(o))
 Spec == Init /\ [][Next]_vars
